@@ -23,6 +23,9 @@ import (
 // document: seeded histories of rules with invariants after every rule.
 
 type c17Payload struct {
+	// Chain: when set, every generated rule is an option rule aimed at the option of
+	// that name of builder Thing (rules acting on what earlier rules produced)
+	Chain string `json:"chain,omitempty"`
 	W     *Workload      `json:"workload"`
 	Lang  string         `json:"lang"`
 	Rules []RuleSpec     `json:"rules"`
@@ -778,7 +781,8 @@ func c17Check(ctx *Ctx, res *CaseResult, dir string, p *c17Payload, regen *Rand)
 									names = append(names, fmt.Sprintf("renamed%d", k))
 								}
 								pkg = bv.Pkg
-								rs = RuleSpec{Scope: "option", Kind: Pick(regen, []string{"rename_arguments", "rename_arguments", "duplicate", "rename"}), SelKind: "by_builder", SelA: bv.Name + "." + ov.Name, Names: names, As: ov.Name + "Again"}
+								rs = RuleSpec{Scope: "option", Kind: Pick(regen, []string{"rename_arguments", "rename_arguments", "duplicate", "rename", "unfold_boolean", "unfold_boolean", "array_to_append", "add_comments"}), SelKind: "by_builder", SelA: bv.Name + "." + ov.Name, Names: names, As: ov.Name + "Again",
+									TrueAs: ov.Name + "On", FalseAs: ov.Name + "Off", Comments: []string{"follow-up comment"}}
 							}
 						}
 					}
@@ -811,6 +815,33 @@ func c17Check(ctx *Ctx, res *CaseResult, dir string, p *c17Payload, regen *Rand)
 				pkg = p.Pkgs[len(p.Pkgs)-1]
 				rs = RuleSpec{Scope: "builder", Kind: Pick(regen, []string{"omit", "rename", "properties", "duplicate"}), SelKind: "by_variant", SelA: prev.SelA,
 					As: "AfterCompose", Props: []FieldSpec{{Name: "someBuilderProp", T: &TypeSpec{K: "string"}}}}
+			}
+			if p.Chain != "" {
+				for _, bv := range bvs {
+					if bv.Name != "Thing" {
+						continue
+					}
+					// the option of that name, else whatever the previous rules made of it
+					target := ""
+					for _, ov := range bv.Options {
+						if ov.Name == p.Chain {
+							target = ov.Name
+						}
+					}
+					if target == "" {
+						for _, ov := range bv.Options {
+							if strings.Contains(strings.ToLower(ov.Name), strings.ToLower(p.Chain[:3])) {
+								target = ov.Name
+							}
+						}
+					}
+					if target == "" {
+						break
+					}
+					pkg = bv.Pkg
+					rs = GenRuleSpec(regen, bvs, pkg, "option", Pick(regen, optionRuleKinds))
+					rs.SelKind, rs.SelA, rs.SelOpts = "by_builder", "Thing."+target, nil
+				}
 			}
 			rs.Lang = "all"
 			if regen.Chance(2, 5) {
@@ -912,6 +943,12 @@ func init() {
 			w := GenWorkload(r, ctx.Corpus, 1, GenOpts{NoAllOf: r.Chance(2, 3)})
 			p := &c17Payload{W: w, Lang: Pick(r, []string{"go", "typescript", "python", "java", "php"}),
 				Sched: simrt.Schedule{Default: Pick(r, []simrt.Policy{simrt.Canonical, simrt.Reverse, simrt.Shuffle}), Seed: r.U64()}}
+			if idx%8 == 3 {
+				// chains of option rules on one option of a struct that has a field of every shape
+				sr := r.Side("shapes-scenario")
+				p.W = GenShapesWorkload(sr)
+				p.Chain = Pick(sr, []string{"title", "enabled", "labels", "switches", "flags", "names", "inners", "byName", "inner", "either", "scalarOrNull"})
+			}
 			if idx%8 == 5 {
 				// the composition scenario, its compose rule being the first step of the history
 				sr := r.Side("compose-scenario")
